@@ -398,7 +398,7 @@ def check_scope_headers(prog, rep):
             for x in g.walk():
                 if x['k'] == 'CXXMemberCallExpr':
                     c = g.callee(x) or {}
-                    if c.get('n', '').startswith('Begin') and 'MsgPackWriter' in c.get('q', ''):
+                    if c.get('n', '').startswith('Begin') and strip_targs(c.get('cls') or '').endswith('Writer'):     # IMsgPackWriter / the two writers
                         a = strip(x['c'][1]) if len(x['c']) > 1 else None
                         d = a.get('d') if a is not None and a['k'] == 'DeclRefExpr' else None
                         calls.append((c['n'], argmap.get(d, d)))
